@@ -396,7 +396,8 @@ pub fn run_with_faults<C: Circuit<F>>(c: &C, sc: &J, extra: J, out: &mut dyn Wri
             sc["stride"].as_u64().unwrap_or(1).max(1) as usize
         };
         let off = sc["offset"].as_u64().unwrap_or(0) as usize;
-        let mut i = off % stride;
+        let min_index = sc["min_index"].as_u64().unwrap_or(0) as usize;
+        let mut i = min_index + off % stride;
         let mut done = 0;
         while i < base.nassign && done < maxi {
             for f in faults {
